@@ -740,6 +740,12 @@ def run_property(prop, module, tier, seed=0, workers=None, deadline_s=None, extr
         p['samples'].sort(key=_sample_rank)
         del p['samples'][2:]
         left = a['leftover']
+        if len(p['violations']) >= 3:
+            # this configuration already produced reproduced counterexamples: the verdict is VIOLATION whatever the rest of
+            # its path tree holds; do not spend the time budget on it (the evidence then says exhaustive=false)
+            p['leftover'] += len(left)
+            p['stopped_early'] = True
+            left = []
         # split the leftover frontier into several jobs to spread the load
         n = max(1, min(len(left), workers))
         for k in range(n):
@@ -757,6 +763,10 @@ def run_property(prop, module, tier, seed=0, workers=None, deadline_s=None, extr
             while pending_jobs or running:
                 while pending_jobs and len(running) < workers * 2:
                     j = pending_jobs.popleft()
+                    if len(per[j['cfg']['name']]['violations']) >= 3:
+                        per[j['cfg']['name']]['leftover'] += len(j['prefixes'])
+                        per[j['cfg']['name']]['stopped_early'] = True
+                        continue
                     j = dict(j, seen=dict(seen_by_cfg.get(j['cfg']['name'], {})),
                              twins_ok=[k for k, v in per[j['cfg']['name']]['twins'].items() if v])
                     running[pool.submit(run_job, j)] = j
@@ -836,7 +846,7 @@ def finish(prop, mod, tier, seed, cfgs, per, functions, t0, timed_out, extra_evi
         if p['validation_failed']:
             problems.append('%s: %d path witness(es) disagree with the float run, e.g. %s' % (
                 c['name'], len(p['validation_failed']), p['validation_failed'][0]))
-        if p['leftover'] or (timed_out and not p['errors'] and p['paths'] == 0):
+        if (p['leftover'] and not p.get('stopped_early')) or (timed_out and not p['errors'] and p['paths'] == 0):
             problems.append('%s: exploration not exhaustive (%d prefixes left)' % (c['name'], p['leftover']))
         for tw in c.get('twins', []):
             if not p['twins'].get(tw, False) and not p['errors']:
